@@ -735,9 +735,9 @@ func (h *harness) evaluate(res *Result) {
 		// O4: consensus can start from what was stored
 		ls := res.LastSeen
 		switch {
-		case ls != nil && H == res.StoreHeight && !ls.AllValid:
+		case ls != nil && H == res.StoreHeight && ls.TwoThirds && !ls.AllValid:
 			add("v0-tip-seen-commit-not-fully-verified", "seen commit stored for the last synced height %d (taken from the LastCommit of the next block, which nothing verifies beyond the first +2/3) contains a non-absent slot whose signature is invalid; hand-over result: %q; %s", H, res.HandPanic, ls.Detail)
-		case ls != nil && H == res.StoreHeight && !ls.AddrOK:
+		case ls != nil && H == res.StoreHeight && ls.TwoThirds && !ls.AddrOK:
 			add("v0-tip-seen-commit-slot-address-unchecked", "seen commit stored for the last synced height %d has a slot whose validator address is not the validator at that index (signatures are checked by index only); hand-over result: %q; %s", H, res.HandPanic, ls.Detail)
 		case res.HandPanic != "":
 			add("v0-handover-panic", "constructing the consensus state at the hand-over (height %d) panicked: %s", H, res.HandPanic)
